@@ -75,7 +75,13 @@ class SdkRun:
         if i["k"] == "lv":
             return arr.get_future_index(self.lv_as_index(i["n"]))
         if i["k"] == "reg":
-            return arr.get_future_index(self.regfs[i["h"]])
+            # indexed by a register future: ONE real entry handle per (array, register future), taken at the first use and kept,
+            # also when the register future is measured into again later (it then lives in another register)
+            key = f"{loc['a']}[reg:{i['h']}]"
+            rf_ = self.regfs[i["h"]]
+            if key not in self.futcache or self.futcache[key][0] is not rf_:
+                self.futcache[key] = (rf_, arr.get_future_index(rf_))
+            return self.futcache[key][1]
         if i["k"] == "fut":
             # indexed by the value of another array entry: ONE real Future object per (array, index entry), used again and again
             key = f"{loc['a']}[{i['a']}[{i['j']}]]"
